@@ -88,7 +88,15 @@ def run(R):
     R.rule = ('(Kripke structure, CTL* state formula): A/E over every path formula with <= 1 operator, sampled 2-operator bodies, '
               'nested quantifiers under X/F/G/U, Boolean combinations, on sampled structures with <= 2 states (3 in thorough), '
               'random <= 4 states / depth <= 3; non-trivial = temporal operator present and answer neither empty nor all states; '
-              'cases are tagged by the back end that answers each quantifier (CTL / LTL / E-via-not-A-not)')
+              'cases are tagged by the back end that answers each quantifier (CTL / LTL / E-via-not-A-not). '
+              'PRESENTATIONS: a sample of the cases is re-run with the states renamed (1-based / sparse / negative ints, strings, tuples with a None field, '
+              'mutually unorderable mixed types; the model stays on numbers) and with label containers that are not sets (frozenset, list, tuple, installed '
+              'through replace_labelling_function). TEXT: a sample is passed as hand-written concrete syntax with multi-character atom names. '
+              'LIVE STRUCTURES (mccheck.run_live): sessions on ONE Kripke object - queries interleaved with edits of its owner through the public API '
+              '(labels(s) add/discard, replace_labelling_function with set/frozenset/list/shared containers, add_edge, a new state with its edges and '
+              'labels) - with a pool of formula OBJECTS (composed from shared sub-objects) reused across the calls (now and then also passed to '
+              'CTL/LTL.modelcheck); every answer must equal the proved model on the presentation read back at the time of the call, every formula object '
+              'must keep its tree, K must be left alone, returned sets are cleared / polluted by the caller after being recorded')
     known_finding_probe(R)
     cs = cases(R)
     tags = {}
@@ -114,24 +122,17 @@ def run(R):
     # structures that ALREADY carry labels spelled like the fresh names the elimination will generate for the quantified
     # subformulas of the very formula being checked ('[' + str(subformula) + ']' and its first fallback), on arbitrary states:
     # the checker must not mistake such a label for the truth set of the subformula (the theorem has no hypothesis on K's labels)
-    import pyModelChecking.CTLS as CTLS
-    stale = []
-    for _ in range(4000 if R.thorough else 400):
-        kd = rand_kripke(rng, rng.randint(2, 5))
-        f = rand_ctls_state(rng, rng.randint(2, 3))
-        qs = [g for g in subformulas(f) if g[0] in ('A', 'E')]
-        if not qs:
-            continue
-        kd = dict(kd)
-        kd['L'] = {s: list(ls) for s, ls in kd['L'].items()}
-        for g in rng.sample(qs, min(len(qs), 2)):
-            name = '[%s]' % str(to_py(g, CTLS))
-            for nm in ([name] if rng.random() < 0.7 else [name, '[%s(0)]' % name]):
-                for s in kd['S']:
-                    if rng.random() < 0.5:
-                        kd['L'][s].append(nm)
-        stale.append((kd, f))
+    stale = stale_label_cases(rng, 4000 if R.thorough else 400, lambda: rand_ctls_state(rng, rng.randint(2, 3)))
     run_mc(R, 'CTLS', stale, label='_stale_fresh_looking_labels', alias_every=4)
+    # the same cases under other presentations of the structure: states that are not 0..n-1 (1-based / sparse ints, strings, tuples with
+    # a None field, mutually unorderable types) and label containers that are not sets (frozenset, list, tuple, installed through
+    # replace_labelling_function): the working clone must be labelled with the fresh atoms all the same
+    light = [c for c in cs if tcount(c[1]) <= 4]
+    run_mc(R, 'CTLS', rng.sample(light, 10000 if R.thorough else 1000) + extra[::4] + stale[::4], label='_renamed_states', alias_every=0, varied=True)
+    # the text channel with multi-character atom names
+    run_text(R, 'CTLS', [c for c in rng.sample(light, 4000 if R.thorough else 400) + extra[::8] if all(len(g) > 2 or g[0] not in NARY for g in subformulas(c[1]))])
+    # one structure queried, edited by its owner and queried again; formula objects reused
+    run_live(R, 'CTLS', 3000 if R.thorough else 250)
 
 
 def replay(R, data):
